@@ -4,8 +4,8 @@ current HEAD (DESIGN.md §6). Each mutant must compile; tools/runmutants.sh chec
 quick check catches it. Nothing here is ever committed to /repo."""
 import os, subprocess, sys
 
-REPO = "/repo"
-OUT = "/verif/mutants"
+REPO = "/tmp/mkmutants-wt"  # a scratch worktree of /repo's HEAD (never /repo itself), removed at the end
+OUT = os.path.join(os.environ.get("VERIF_DIR", "/verif"), "mutants")
 
 M = [
     # (property, name, file, old, new)
@@ -171,6 +171,25 @@ M = [
     ("C20", "call-without-mutex", "fp.go",
      "\tcurrySelf.callM.Lock()\n\tif !currySelf.isDone.Get() {",
      "\tif !currySelf.isDone.Get() {"),
+    # pure clauses of C20 (input generation inside the C20 check, see harness/c20_pure.go)
+    ("C20", "compose-applies-left-to-right", "fp.go",
+     "\t\treturn f(Compose(nextFnList...)(s...)...)",
+     "\t\treturn Compose(nextFnList...)(f(s...)...)"),
+    ("C20", "pipe-drops-first-of-long-lists", "fp.go",
+     "\t\tlastIndex := len(fnList) - 1\n\t\tf := fnList[lastIndex]\n\t\tnextFnList := fnList[:lastIndex]",
+     "\t\tlastIndex := len(fnList) - 1\n\t\tf := fnList[lastIndex]\n\t\tnextFnList := fnList[:lastIndex]\n\t\tif len(nextFnList) > 4 {\n\t\t\tnextFnList = nextFnList[1:]\n\t\t}"),
+    ("C20", "matchfor-last-match-wins", "fp.go",
+     "\tfor _, pattern := range patternMatchingSelf.patterns {\n",
+     "\tfor i := len(patternMatchingSelf.patterns) - 1; i >= 0; i-- {\n\t\tpattern := patternMatchingSelf.patterns[i]\n"),
+    ("C20", "trampoline-ignores-error-until-done", "fp.go",
+     "\t\tresult, isDone, err = fn(result...)\n\t\tif err != nil {",
+     "\t\tresult, isDone, err = fn(result...)\n\t\tif err != nil && isDone {"),
+    ("C20", "newcompdata-accepts-long-tuples", "fp.go",
+     "\tif compType.Matches(value...) {\n\t\treturn &CompData{",
+     "\tif compType.Matches(value...) || len(value) > 2 {\n\t\treturn &CompData{"),
+    ("C20", "variadicparam3-swaps-arguments", "fp.go",
+     "\t\treturn fn(args[0], args[1], args[2])",
+     "\t\treturn fn(args[0], args[2], args[1])"),
     ("C20", "args-appended-outside-mutex", "fp.go",
      "\tcurrySelf.callM.Lock()\n\tif !currySelf.isDone.Get() {\n\t\tcurrySelf.args = append(currySelf.args, args...)",
      "\tcurrySelf.args = append(currySelf.args, args...)\n\tcurrySelf.callM.Lock()\n\tif !currySelf.isDone.Get() {"),
@@ -179,7 +198,7 @@ M = [
 
 def main():
     os.makedirs(OUT, exist_ok=True)
-    subprocess.check_call(["git", "-C", REPO, "diff", "--quiet"])  # tree must be clean
+    subprocess.check_call(["git", "-C", "/repo", "worktree", "add", "-q", "--detach", REPO, "HEAD"])
     bad = 0
     for prop, name, f, old, new in M:
         path = os.path.join(REPO, f)
@@ -203,6 +222,7 @@ def main():
             d = subprocess.check_output(["git", "-C", REPO, "diff"]).decode()
             open(os.path.join(OUT, "%s-%s.patch" % (prop, name)), "w").write(d)
         subprocess.check_call(["git", "-C", REPO, "checkout", "--", "."])
+    subprocess.check_call(["git", "-C", "/repo", "worktree", "remove", "--force", REPO])
     print(len(M) - bad, "mutants written,", bad, "problems")
 
 
